@@ -164,6 +164,74 @@ Qed.
 Lemma absolute_has_no_scheme parts : uri_scheme (join true true parts) = None.
 Proof. destruct parts; reflexivity. Qed.
 
+(* ... and neither does a relative one whose first segment is a parameter: a parameter value is written with its
+   colons escaped, so nothing in front of the first slash can be taken for a scheme *)
+Definition colon_ok (b : N) : bool := negb (keep_raw b) || negb (b =? COLON).
+Lemma colon_bytes_ok : forallb colon_ok all_bytes = true.
+Proof. vm_compute. reflexivity. Qed.
+
+Lemma enc_byte_no_colon b : b < 256 -> ~ In COLON (enc_byte b).
+Proof.
+  intros H. pose proof colon_bytes_ok as A. rewrite forallb_forall in A. specialize (A b (in_all_bytes b H)).
+  unfold colon_ok in A. unfold enc_byte. destruct (keep_raw b) eqn:EK.
+  - cbn [negb orb] in A. apply negb_true_iff, N.eqb_neq in A. intros [I|[]]. congruence.
+  - assert (HU : forall d, d < 16 -> hex_upper d <> COLON).
+    { intros d Hd. unfold hex_upper, COLON. destruct (d <? 10) eqn:E; [apply N.ltb_lt in E|apply N.ltb_ge in E]; lia. }
+    intros [I|[I|[I|[]]]].
+    + discriminate.
+    + apply (HU (b / 16)); [apply N.div_lt_upper_bound; lia|exact I].
+    + apply (HU (b mod 16)); [apply N.mod_lt; lia|exact I].
+Qed.
+
+Lemma encode_no_colon v : bytes v -> ~ In COLON (pct_encode v).
+Proof.
+  induction v as [|b v IH]; intros H; [cbn; tauto|]. inversion H; subst.
+  unfold pct_encode. cbn [flat_map]. intros I. apply in_app_or in I as [I|I]; [now apply (enc_byte_no_colon b)|now apply IH].
+Qed.
+
+(* what take_while leaves in front: a character of [t], the slash after it, or nothing - never a colon *)
+Lemma scheme_scan_stops_before_colon t : ~ In COLON t -> forall R, (R = [] \/ exists R', R = SLASH :: R') ->
+  match snd (take_while is_scheme_char (t ++ R)) with [] => True | d :: _ => d <> COLON end.
+Proof.
+  induction t as [|c t IH]; intros Hn R HR.
+  - cbn [app]. destruct HR as [->|[R' ->]]; [exact I|]. cbn [take_while]. change (is_scheme_char SLASH) with false.
+    cbn [snd]. discriminate.
+  - cbn [app take_while]. destruct (is_scheme_char c).
+    + destruct (take_while is_scheme_char (t ++ R)) as [a b] eqn:E. cbn [snd].
+      assert (Hn' : ~ In COLON t) by (intros I; apply Hn; now right).
+      specialize (IH Hn' R HR). now rewrite E in IH.
+    + cbn [snd]. intros ->. apply Hn. now left.
+Qed.
+
+Lemma join_rest_shape ps : join false false ps = [] \/ exists R', join false false ps = SLASH :: R'.
+Proof. destruct ps as [|x rest]; [now left|right]. cbn [join negb orb app]. eexists. reflexivity. Qed.
+
+Lemma relative_first_part_has_no_scheme p1 ps : ~ In COLON p1 -> uri_scheme (join true false (p1 :: ps)) = None.
+Proof.
+  intros Hn. cbn [join negb orb app].
+  destruct p1 as [|c t].
+  - cbn [app]. destruct (join_rest_shape ps) as [->|[R' ->]]; reflexivity.
+  - cbn [app uri_scheme]. destruct (is_alpha c); [|reflexivity].
+    assert (Hn' : ~ In COLON t) by (intros I; apply Hn; now right).
+    pose proof (scheme_scan_stops_before_colon t Hn' (join false false ps) (join_rest_shape ps)) as H.
+    destruct (take_while is_scheme_char (t ++ join false false ps)) as [a r]. cbn [snd] in H.
+    destruct r as [|d r']; [reflexivity|]. destruct (d =? COLON) eqn:E; [apply N.eqb_eq in E; congruence|reflexivity].
+Qed.
+
+(* so the premise about the scheme is automatic for a relative, scheme-less pattern that begins with a parameter *)
+Theorem relative_leading_parameter_has_no_scheme m s segs parts :
+  values_are_bytes m -> s_param s = true -> render_all m (s :: segs) = Some parts ->
+  uri_scheme (join true false parts) = None.
+Proof.
+  intros Hb Hp Hr. cbn [render_all] in Hr.
+  destruct (render_seg m s) as [x|] eqn:ER; [|discriminate]. destruct (render_all m segs) as [xs|]; [|discriminate].
+  injection Hr as <-. apply relative_first_part_has_no_scheme.
+  unfold render_seg in ER. rewrite Hp in ER.
+  destruct (lookup (s_text s) m) as [[|c v]|] eqn:El; try discriminate. injection ER as <-.
+  change (enc_byte c ++ pct_encode v) with (pct_encode (c :: v)).
+  apply encode_no_colon. exact (lookup_bytes _ _ _ Hb El).
+Qed.
+
 (* the whole round trip: apply, then RouteUri parsing and matching, returns the parameter values *)
 Theorem apply_unapply_str p m parts route :
   values_are_bytes m -> p_segs p <> [] -> Forall (fun s => ~ In SLASH (s_text s)) (p_segs p) ->
